@@ -248,7 +248,33 @@ class SymArray:
         return self.data
 
     def __getitem__(self, i):
+        if isinstance(i, _BoolMask):
+            keep = []
+            for row, m in zip(self.data, i.bits):
+                nz = m != 0
+                if nz if isinstance(nz, bool) else bool(nz):
+                    keep.append(row)
+            return SymArray(keep, self.t)
+        if isinstance(i, slice):
+            def c(x):
+                if isinstance(x, CInt):
+                    if not x.concrete:
+                        raise Escape("symbolic slice bound on an array")
+                    return x.e
+                return x
+            return SymArray(self.data[slice(c(i.start), c(i.stop), c(i.step))], self.t)
         return View(self.data, self.t)[i]
+
+    def astype(self, dtype, copy=True):
+        if dtype is bool:
+            return _BoolMask(self.data)
+        t = ctype(dtype.name if isinstance(dtype, _DType) else str(dtype))
+        return SymArray([coerce(t, x) for x in self.data], t)
+
+
+class _BoolMask:
+    def __init__(self, bits):
+        self.bits = bits
 
 
 class _DType:
@@ -267,7 +293,13 @@ class _SymNP:
         t = ctype(dtype.name if isinstance(dtype, _DType) else str(dtype))
         if isinstance(shape, (int, CInt)):
             shape = (shape,)
-        dims = [s.e if isinstance(s, CInt) else int(s) for s in shape]
+        dims = []
+        for s in shape:
+            if isinstance(s, CInt):
+                if not s.concrete:
+                    raise Escape("array allocation with a symbolic size")
+                s = s.e
+            dims.append(int(s))
 
         def build(ds):
             if len(ds) == 1:
@@ -288,6 +320,36 @@ class _SymNP:
         if isinstance(x, View):
             return SymArray(x.data, x.t)
         return x
+
+    def ones(self, shape, dtype=None):
+        return self._mk(shape, dtype, 1)
+
+    def array(self, rows, dtype=None):
+        t = ctype(dtype.name if isinstance(dtype, _DType) else str(dtype))
+        return SymArray([[coerce(t, _plain(x)) for x in r] if isinstance(r, (list, tuple)) else coerce(t, _plain(r)) for r in rows], t)
+
+    def append(self, a, b, axis=0):
+        assert axis == 0
+        return SymArray(list(a.data) + [[coerce(a.t, x) for x in row] for row in b.data], a.t)
+
+    def delete(self, a, i, axis=0):
+        assert axis == 0
+        i = i.e if isinstance(i, CInt) else i
+        if not isinstance(i, int):
+            raise Escape("np.delete with symbolic index")
+        return SymArray([r for k, r in enumerate(a.data) if k != i], a.t)
+
+    def max(self, a):
+        xs = a.data if isinstance(a, (View, SymArray)) else list(a)
+        return _max(*xs)
+
+    def min(self, a):
+        xs = a.data if isinstance(a, (View, SymArray)) else list(a)
+        return _min(*xs)
+
+
+def _plain(x):
+    return x
 
 
 SymNP = _SymNP()
